@@ -104,6 +104,14 @@ def delete_rule(ctx, rid, title="delete is last: table, gather/sync completed be
             # (a) table
             if dels and not eff:
                 d = g.nodes[dels[0]]
+                # the deletion may sit in a helper that decides on an argument: if that argument is not one of the tracked flags
+                # (e.g. a field of a record built earlier) the helper was analysed with "unknown" and the verdict is not a finding
+                for c_ in node_calls(d):
+                    cv_ = fl.call_vals.get(id(c_))
+                    if cv_ is not None and cv_[0] not in deleters and cv_[0].qualname not in entry_names:
+                        untracked = [a_ for a_ in list(c_.args) + [k.value for k in c_.keywords] if not (isinstance(a_, ast.Constant) or (isinstance(a_, ast.Name) and a_.id in FLAGS))]
+                        if untracked:
+                            raise AnalysisError("idiom changed: the crop is deleted inside `%s`, decided there from `%s`, which is not a tracked flag" % (norm(c_)[:50], norm(untracked[0])[:40]))
                 r1.bad(ctx.finding(rid, f, d.stmt, "the crop can be deleted although the effective clean_up is False (%s): clean_up / allow_incomplete are not honoured as documented" % vtxt,
                                    construct="delete-when-clean_up-false " + d.text()[:80], path=vtxt), "R1a %s [%s]" % (f.name, vtxt))
             elif (not dels) and eff:
